@@ -52,6 +52,15 @@ theorem setRt_rt (r : Nat) (R : Rt) (i : Nat) :
 @[simp] theorem addLog_fvs (e : Ev) : (m.addLog e).fvs = m.fvs := rfl
 @[simp] theorem addLog_queue (e : Ev) : (m.addLog e).queue = m.queue := rfl
 
+@[simp] theorem setClk_rt (r : Nat) (b : Bool) : (m.setClk r b).rt = m.rt := rfl
+@[simp] theorem setClk_cur (r : Nat) (b : Bool) : (m.setClk r b).cur = m.cur := rfl
+@[simp] theorem setClk_stack (r : Nat) (b : Bool) : (m.setClk r b).stack = m.stack := rfl
+@[simp] theorem setClk_mainSecs (r : Nat) (b : Bool) : (m.setClk r b).mainSecs = m.mainSecs := rfl
+@[simp] theorem setClk_ext (r : Nat) (b : Bool) : (m.setClk r b).ext = m.ext := rfl
+@[simp] theorem setClk_pending (r : Nat) (b : Bool) : (m.setClk r b).pending = m.pending := rfl
+@[simp] theorem setClk_conds (r : Nat) (b : Bool) : (m.setClk r b).conds = m.conds := rfl
+@[simp] theorem setClk_fvs (r : Nat) (b : Bool) : (m.setClk r b).fvs = m.fvs := rfl
+@[simp] theorem setClk_queue (r : Nat) (b : Bool) : (m.setClk r b).queue = m.queue := rfl
 @[simp] theorem sched_rt (r : Nat) : (m.sched r).rt = m.rt := rfl
 @[simp] theorem sched_cur (r : Nat) : (m.sched r).cur = m.cur := rfl
 @[simp] theorem sched_stack (r : Nat) : (m.sched r).stack = m.stack := rfl
@@ -79,6 +88,7 @@ theorem CoreEq.trans {a b c : M} (h1 : CoreEq a b) (h2 : CoreEq b c) : CoreEq a 
    h2.mainSecs.trans h1.mainSecs, h2.ext.trans h1.ext, h2.pending.trans h1.pending⟩
 
 theorem coreEq_sched (m : M) (r : Nat) : CoreEq m (m.sched r) := ⟨rfl, rfl, rfl, rfl, rfl, rfl⟩
+theorem coreEq_setClk (m : M) (r : Nat) (b : Bool) : CoreEq m (m.setClk r b) := ⟨rfl, rfl, rfl, rfl, rfl, rfl⟩
 theorem coreEq_addLog (m : M) (e : Ev) : CoreEq m (m.addLog e) := ⟨rfl, rfl, rfl, rfl, rfl, rfl⟩
 theorem coreEq_setCond (m : M) (c : Nat) (C : Cond) : CoreEq m (m.setCond c C) :=
   ⟨rfl, rfl, rfl, rfl, rfl, rfl⟩
@@ -192,6 +202,7 @@ theorem inv_applyRop {m : M} (hi : Inv m) (r : Nat) (o : ROp) : Inv (m.applyRop 
   · split
     · rename_i h
       apply Inv.of_coreEq (coreEq_sched _ _)
+      apply Inv.of_coreEq (coreEq_setClk _ _ _)
       apply hi.of_rt_update <;> simp
       rcases h with h | h <;> simp [h]
     · exact hi
@@ -211,11 +222,13 @@ theorem inv_applyRop {m : M} (hi : Inv m) (r : Nat) (o : ROp) : Inv (m.applyRop 
   · split
     · exact hi
     · rename_i h
+      apply Inv.of_coreEq (coreEq_setClk _ _ _)
       apply hi.of_rt_update <;> simp
       exact h
   · split
     · exact hi
     · rename_i h
+      apply Inv.of_coreEq (coreEq_setClk _ _ _)
       apply hi.of_rt_update <;> simp
       exact h
 
@@ -327,12 +340,20 @@ theorem inv_exit {m : M} (hi : Inv m) {r : Nat} {rest : List Nat} (hs : m.stack 
     exact hi.secs i (by simp [hs, hin])
   · intro h; exact absurd h hne
 
+theorem inv_exitRc {m : M} (hi : Inv m) {r : Nat} {rest : List Nat} (hs : m.stack = r :: rest)
+    (R : Rt) (hp : R.parent = (m.rt r).parent) (hst : R.state ≠ .running) (res : Res) :
+    Inv (m.exitRc r R res) :=
+  Inv.of_coreEq (coreEq_setClk _ _ _) (inv_exit hi hs R hp hst res)
+
 theorem inv_raiseIn {m : M} (hi : Inv m) {r : Nat} {rest : List Nat} (hs : m.stack = r :: rest)
     (R : Rt) (hp : R.parent = (m.rt r).parent) (e : Exc) : Inv (m.raiseIn r R e) := by
   unfold M.raiseIn
   split
   · (refine inv_exit hi hs _ ?_ ?_ _ <;> simp [hp])
-  · split <;> (refine inv_exit hi hs _ ?_ ?_ _ <;> simp [hp])
+  · split
+    · (refine inv_exitRc hi hs _ ?_ ?_ _ <;> simp [hp])
+    · (refine inv_exitRc hi hs _ ?_ ?_ _ <;> simp [hp])
+    · (refine inv_exit hi hs _ ?_ ?_ _ <;> simp [hp])
 
 theorem inv_yieldVal {m : M} (hi : Inv m) {r : Nat} {rest : List Nat} (hs : m.stack = r :: rest)
     (R : Rt) (hp : R.parent = (m.rt r).parent) (k : Nat) (v : Val) : Inv (m.yieldVal r R k v) := by
@@ -347,7 +368,9 @@ theorem inv_execAct {m : M} (hi : Inv m) {r : Nat} {rest : List Nat} (hs : m.sta
   have hne := hi.ext_ne_idle hs
   unfold M.execAct
   split
-  · split <;> (refine inv_exit hi hs _ ?_ ?_ _ <;> simp)
+  · split
+    · (refine inv_exitRc hi hs _ ?_ ?_ _ <;> simp)
+    · (refine inv_exit hi hs _ ?_ ?_ _ <;> simp)
   · rename_i a _
     cases a with
     | yield v =>
@@ -548,6 +571,15 @@ theorem exit_rt (r : Nat) (R : Rt) (res : Res) (i : Nat) :
 @[simp] theorem exit_rt_same (r : Nat) (R : Rt) (res : Res) :
     (m.exit r R res).rt r = { R with parent := .nil } := by simp [exit_rt]
 
+@[simp] theorem exitRc_stack (r : Nat) (R : Rt) (res : Res) : (m.exitRc r R res).stack = m.stack.tail := rfl
+@[simp] theorem exitRc_mainSecs (r : Nat) (R : Rt) (res : Res) : (m.exitRc r R res).mainSecs = m.mainSecs := rfl
+@[simp] theorem exitRc_conds (r : Nat) (R : Rt) (res : Res) : (m.exitRc r R res).conds = m.conds := rfl
+@[simp] theorem exitRc_fvs (r : Nat) (R : Rt) (res : Res) : (m.exitRc r R res).fvs = m.fvs := rfl
+@[simp] theorem exitRc_queue (r : Nat) (R : Rt) (res : Res) : (m.exitRc r R res).queue = m.queue := rfl
+@[simp] theorem exitRc_ext (r : Nat) (R : Rt) (res : Res) : (m.exitRc r R res).ext = m.ext := rfl
+@[simp] theorem exitRc_pending (r : Nat) (R : Rt) (res : Res) : (m.exitRc r R res).pending = some res := rfl
+@[simp] theorem exitRc_cur (r : Nat) (R : Rt) (res : Res) : (m.exitRc r R res).cur = R.parent := rfl
+@[simp] theorem exitRc_rt (r : Nat) (R : Rt) (res : Res) : (m.exitRc r R res).rt = (m.exit r R res).rt := rfl
 @[simp] theorem advance_stack (r : Nat) (R : Rt) (k : Nat) : (m.advance r R k).stack = m.stack := rfl
 @[simp] theorem advance_mainSecs (r : Nat) (R : Rt) (k : Nat) : (m.advance r R k).mainSecs = m.mainSecs := rfl
 @[simp] theorem advance_conds (r : Nat) (R : Rt) (k : Nat) : (m.advance r R k).conds = m.conds := rfl
@@ -976,30 +1008,45 @@ theorem entriesOf_enqueue_other (t : Int) (r r' : Nat) (hne : r' ≠ r) (q : Lis
 theorem sched_secsOf_cur (m : M) (r : Nat) : (m.sched r).secsOf (m.sched r).cur = m.secsOf m.cur := by
   simp only [sched_cur]; cases m.cur <;> rfl
 
-/-- Scheduling a list of routines at the current thread's logical time `t`: afterwards each of
-    them has exactly ONE pending entry, `(t, r)`, and nobody else's entries changed. -/
+theorem qkey_inj {r r' : Nat} {b b' : Bool} (h : qkey r b = qkey r' b') : r = r' := by
+  unfold qkey at h
+  cases b <;> cases b' <;> simp at h <;> omega
+
+@[simp] theorem sched_clk (m : M) (r : Nat) : (m.sched r).clk = m.clk := rfl
+
+/-- The scheduler key of routine `r`: the pair (r, its `_clock`). -/
+def M.keyOf (m : M) (r : Nat) : Nat := qkey r (m.clk r)
+
+/-- Scheduling a list of routines at the current thread's logical time `t`, each on its own clock: afterwards
+    each of them has exactly ONE pending entry on that clock, `(t, key)`, and no other entry changed. -/
 theorem schedAll_entries (m : M) (l : List Nat) :
-    (∀ r ∈ l, entriesOf r (m.schedAll l).queue = [(m.secsOf m.cur, r)]) ∧
-    (∀ r, r ∉ l → (entriesOf r (m.schedAll l).queue).Perm (entriesOf r m.queue)) := by
+    (∀ r ∈ l, entriesOf (m.keyOf r) (m.schedAll l).queue = [(m.secsOf m.cur, m.keyOf r)]) ∧
+    (∀ k, (∀ a ∈ l, k ≠ m.keyOf a) → (entriesOf k (m.schedAll l).queue).Perm (entriesOf k m.queue)) := by
   induction l generalizing m with
   | nil => exact ⟨by simp, fun r _ => List.Perm.refl _⟩
   | cons a rs ih =>
     obtain ⟨ih1, ih2⟩ := ih (m.sched a)
     rw [sched_secsOf_cur] at ih1
+    have hk : ∀ r, (m.sched a).keyOf r = m.keyOf r := fun r => rfl
     simp only [M.schedAll]
     constructor
     · intro r hr
       by_cases hrs : r ∈ rs
-      · exact ih1 r hrs
+      · have := ih1 r hrs; rwa [hk] at this
       · have hra : r = a := by simpa [hrs] using hr
         subst hra
-        have := ih2 r hrs
-        have h3 : entriesOf r (m.sched r).queue = [(m.secsOf m.cur, r)] := entriesOf_enqueue_same _ _ _
+        have hne : ∀ b ∈ rs, m.keyOf r ≠ (m.sched r).keyOf b := by
+          intro b hb e
+          rw [hk] at e
+          exact hrs (qkey_inj e ▸ hb)
+        have := ih2 (m.keyOf r) hne
+        have h3 : entriesOf (m.keyOf r) (m.sched r).queue = [(m.secsOf m.cur, m.keyOf r)] :=
+          entriesOf_enqueue_same _ _ _
         rw [h3] at this
         exact List.perm_singleton.mp this
-    · intro r hr
-      simp only [List.mem_cons, not_or] at hr
-      exact (ih2 r hr.2).trans (entriesOf_enqueue_other _ _ _ hr.1 _)
+    · intro k hk'
+      have h1 : ∀ b ∈ rs, k ≠ (m.sched a).keyOf b := fun b hb => by rw [hk]; exact hk' b (by simp [hb])
+      exact (ih2 k h1).trans (entriesOf_enqueue_other _ _ _ (hk' a (by simp)) _)
 
 theorem releaseCond_conds (m : M) (c i : Nat) :
     (m.releaseCond c).conds i = if i = c then { m.conds c with waiting := [] } else m.conds i := by
@@ -1168,11 +1215,15 @@ theorem wf_exit {m : M} (h : WFStack m) {top : Nat} {rest : List Nat}
   have : r ≠ top := fun e => hn (e ▸ hr)
   simp [this]
 
+theorem wf_exitRc {m : M} (h : WFStack m) {top : Nat} {rest : List Nat}
+    (hst : m.stack = top :: rest) (hn : top ∉ rest) (R : Rt) (res : Res) : WFStack (m.exitRc top R res) :=
+  (wf_exit h hst hn R res).of_same rfl (Or.inr rfl) (fun _ _ => ⟨rfl, rfl⟩)
+
 theorem wf_raiseIn {m : M} (h : WFStack m) {top : Nat} {rest : List Nat}
     (hst : m.stack = top :: rest) (hn : top ∉ rest) (R : Rt) (e : Exc) : WFStack (m.raiseIn top R e) := by
   unfold M.raiseIn
   repeat' split
-  all_goals exact wf_exit h hst hn _ _
+  all_goals first | exact wf_exit h hst hn _ _ | exact wf_exitRc h hst hn _ _
 
 /-- Changes outside routine records, stack and pending keep the stack well formed. -/
 theorem WFStack.of_coreEq {m m' : M} (h : WFStack m) (hc : CoreEq m m') : WFStack m' :=
@@ -1261,7 +1312,9 @@ theorem wf_execAct {m : M} (hi : Inv m) (h : WFStack m) {top : Nat} {rest : List
     exact wf_advance (h.of_coreEq hc) (by rw [hc.stack]; exact hst) hn (by rw [hc.pending]; exact hp) R k
   unfold M.execAct
   split
-  · split <;> exact wf_exit h hst hn _ _
+  · split
+    · exact wf_exitRc h hst hn _ _
+    · exact wf_exit h hst hn _ _
   · rename_i a ha
     cases a with
     | yield v => exact wf_exit h hst hn _ _
